@@ -1,27 +1,11 @@
 (* BrokerGateProofs.v — composition of the relay-pattern gate (Model/RelayCheck.v, C06) with the matching
-   machine (Model/Broker.v): a poll is registered only if the gate accepts it; a rejected poll changes
+   machine (Model/Broker.v); definitions: Model/BrokerGate.v: a poll is registered only if the gate accepts it; a rejected poll changes
    nothing, hence no entry exists for it and no client is ever handed to it. *)
 From Coq Require Import List NArith ZArith Bool Arith.
-From Snow Require Import Lib.Wire Model.NameMatcher Model.RelayCheck Model.Broker Proofs.BrokerProofs Proofs.BrokerSteps Proofs.NameMatcherProofs.
+From Snow Require Import Lib.Wire Model.NameMatcher Model.RelayCheck Model.JsonBoundary Model.Messages Model.Broker Model.BrokerGate
+  Proofs.BrokerProofs Proofs.BrokerSteps Proofs.NameMatcherProofs.
 Import ListNotations.
 Open Scope N_scope.
-
-(* labels of the gated machine: a proxy poll carries its AcceptedRelayPattern field (None = legacy poll) *)
-Inductive glabel :=
-| G_ProxyPoll (s : sid) (n : natty) (pt cl : N) (pat : option bytes)
-| G_Other (l : label).
-
-Inductive poll_reply := Registered | RejectedPattern.
-
-Definition gstep (cfg : broker_cfg) (v : version) (s : state) (g : glabel) : option (state * option poll_reply) :=
-  match g with
-  | G_ProxyPoll sd n pt cl pat =>
-      if broker_accepts_poll cfg pat
-      then option_map (fun s' => (s', Some Registered)) (step v s (L_Poll sd n pt cl))
-      else Some (s, Some RejectedPattern)
-  | G_Other (L_Poll _ _ _ _) => None           (* polls only enter through the gate *)
-  | G_Other l => option_map (fun s' => (s', None)) (step v s l)
-  end.
 
 Theorem rejected_poll_changes_nothing cfg v s sd n pt cl pat :
   broker_accepts_poll cfg pat = false ->
@@ -55,4 +39,295 @@ Theorem gated_inv cfg v s g s' r : Inv v s -> gstep cfg v s g = Some (s', r) -> 
 Proof.
   intros I H. destruct (gstep_refines cfg v s g s' r H) as [->|[l Hl]]; [exact I|].
   eapply step_preserves_inv; eassumption.
+Qed.
+
+(* ================================================================== the BrokerContext as ProxyPolls sees it
+   (Model/BrokerGate.v bstep / brun): request bodies through the real decoder, the three counters, the matching
+   core, re-installation of the patterns. *)
+
+(* the option handed to the gate says what the code's CheckProxyRelayPattern(relayPattern, !relayPatternSupported) says *)
+Lemma poll_label_verdict cfg r :
+  broker_accepts_poll cfg (poll_pattern r) = check_proxy_relay_pattern cfg (pq_pattern r) (negb (pq_aware r)).
+Proof.
+  unfold poll_pattern, broker_accepts_poll. destruct (pq_aware r); cbn [negb]; [reflexivity|].
+  unfold check_proxy_relay_pattern. reflexivity.
+Qed.
+
+(* awareness is the presence of the field: nothing else of the request (Version in particular) enters *)
+Lemma poll_pattern_is_field v :
+  forall sid ver ty nat n pat q,
+  unmarshal poll_req_schema v = Some [VStr sid; VStr ver; VStr ty; VStr nat; VInt n; VPtr pat] ->
+  decode_proxy_poll v = Ok q -> poll_pattern q = pat.
+Proof.
+  intros sid ver ty nat n pat q U. unfold decode_proxy_poll. rewrite U.
+  destruct (negb (major_ok ver)); [discriminate|]. destruct (beq sid []); [discriminate|].
+  destruct (norm_nat nat); [|discriminate]. intros H; injection H as <-.
+  unfold poll_pattern. cbn. destruct pat; reflexivity.
+Qed.
+
+Lemma gstep_poll_cases cfg v s sd n pt cl pat :
+  exists s', gstep cfg v s (G_ProxyPoll sd n pt cl pat)
+             = Some (s', Some (if broker_accepts_poll cfg pat then Registered else RejectedPattern))
+             /\ (broker_accepts_poll cfg pat = false -> s' = s)
+             /\ map e_sid (entries s') = map e_sid (entries s) ++ (if broker_accepts_poll cfg pat then [sd] else []).
+Proof.
+  cbn [gstep]. destruct (broker_accepts_poll cfg pat).
+  - cbn [step option_map]. eexists. split; [reflexivity|]. split; [discriminate|].
+    cbn [entries]. rewrite map_app. reflexivity.
+  - exists s. split; [reflexivity|]. split; [reflexivity|]. rewrite app_nil_r. reflexivity.
+Qed.
+
+Lemma bstep_poll v c body c' r :
+  bstep v c (B_Poll body) = Some (c', r) ->
+  r = poll_verdict (b_cfg c) body /\ b_cfg c' = b_cfg c /\
+  match opt_decode decode_proxy_poll body with
+  | Err => c' = c
+  | Ok q =>
+      b_metrics c' = (if broker_accepts_poll (b_cfg c) (poll_pattern q) then (fun m => m) else bump_rejected)
+                       (bump_seen (pq_aware q) (b_metrics c))
+      /\ (broker_accepts_poll (b_cfg c) (poll_pattern q) = false -> b_core c' = b_core c)
+      /\ map e_sid (entries (b_core c')) = map e_sid (entries (b_core c))
+           ++ (if broker_accepts_poll (b_cfg c) (poll_pattern q) then [sid_tag (pq_sid q)] else [])
+  end.
+Proof.
+  unfold bstep, poll_verdict. destruct (opt_decode decode_proxy_poll body) as [q|].
+  - rewrite <- poll_label_verdict. unfold poll_label.
+    destruct (gstep_poll_cases (b_cfg c) v (b_core c) (sid_tag (pq_sid q)) (natty_of (pq_nat q))
+                (sid_tag (pq_type q)) (Z.to_N (pq_clients q)) (poll_pattern q)) as [s' [E [Hrej Hs]]].
+    rewrite E. destruct (broker_accepts_poll (b_cfg c) (poll_pattern q));
+      intros H; injection H as <- <-; cbn [b_cfg b_metrics b_core]; repeat split; assumption.
+  - intros H; injection H as <- <-. repeat split.
+Qed.
+
+Lemma bstep_reply v c ev c' r : bstep v c ev = Some (c', r) -> r = breply_of (b_cfg c) ev.
+Proof.
+  destruct ev as [body|cfg'|l]; intros H.
+  - apply bstep_poll in H. apply H.
+  - cbn in H. injection H as _ <-. reflexivity.
+  - cbn [bstep] in H. destruct (gstep (b_cfg c) v (b_core c) (G_Other l)) as [[core' o]|]; [|discriminate].
+    injection H as _ <-. reflexivity.
+Qed.
+
+(* INVARIANT: no step other than InstallBridgeListProfile writes the two patterns *)
+Lemma bstep_cfg v c ev c' r : bstep v c ev = Some (c', r) -> b_cfg c' = bcfg_after (b_cfg c) [ev].
+Proof.
+  destruct ev as [body|cfg'|l]; intros H.
+  - apply bstep_poll in H. apply H.
+  - cbn in H. injection H as <- _. reflexivity.
+  - cbn [bstep] in H. destruct (gstep (b_cfg c) v (b_core c) (G_Other l)) as [[core' o]|]; [|discriminate].
+    injection H as <- _. reflexivity.
+Qed.
+
+Lemma bstep_cfg_not_written v c ev c' r :
+  bstep v c ev = Some (c', r) -> (forall cfg', ev <> B_Install cfg') -> b_cfg c' = b_cfg c.
+Proof.
+  intros H N. rewrite (bstep_cfg _ _ _ _ _ H). destruct ev; try reflexivity. exfalso. eapply N. reflexivity.
+Qed.
+
+Lemma bcfg_after_app : forall pre post cfg, bcfg_after cfg (pre ++ post) = bcfg_after (bcfg_after cfg pre) post.
+Proof. induction pre as [|[b|c|l] r IH]; intros post cfg; cbn; [reflexivity| | |]; apply IH. Qed.
+
+Lemma brun_cfg v : forall evs c c' rs, brun v c evs = Some (c', rs) -> b_cfg c' = bcfg_after (b_cfg c) evs.
+Proof.
+  induction evs as [|ev r IH]; intros c c' rs H; cbn [brun] in H.
+  - injection H as <- _. reflexivity.
+  - destruct (bstep v c ev) as [[c1 o]|] eqn:E; [|discriminate].
+    destruct (brun v c1 r) as [[c2 os]|] eqn:E2; [|discriminate]. injection H as <- _.
+    rewrite (IH _ _ _ E2), (bstep_cfg _ _ _ _ _ E). destruct ev; reflexivity.
+Qed.
+
+(* the replies of a run: each one is the function [breply_of] of the patterns then in force and the event *)
+Fixpoint breplies (cfg : broker_cfg) (evs : list bevent) : list breply :=
+  match evs with
+  | [] => []
+  | ev :: r => breply_of cfg ev :: breplies (bcfg_after cfg [ev]) r
+  end.
+
+Lemma brun_replies v : forall evs c c' rs, brun v c evs = Some (c', rs) -> rs = breplies (b_cfg c) evs.
+Proof.
+  induction evs as [|ev r IH]; intros c c' rs H; cbn [brun] in H.
+  - injection H as _ <-. reflexivity.
+  - destruct (bstep v c ev) as [[c1 o]|] eqn:E; [|discriminate].
+    destruct (brun v c1 r) as [[c2 os]|] eqn:E2; [|discriminate]. injection H as _ <-.
+    cbn [breplies]. rewrite (bstep_reply _ _ _ _ _ E), (IH _ _ _ E2), (bstep_cfg _ _ _ _ _ E). reflexivity.
+Qed.
+
+Lemma breplies_length : forall evs cfg, length (breplies cfg evs) = length evs.
+Proof. induction evs as [|ev r IH]; intros cfg; cbn; [reflexivity|]. rewrite IH. reflexivity. Qed.
+
+Lemma breplies_app : forall pre post cfg,
+  breplies cfg (pre ++ post) = breplies cfg pre ++ breplies (bcfg_after cfg pre) post.
+Proof.
+  induction pre as [|ev r IH]; intros post cfg; cbn [app breplies bcfg_after]; [reflexivity|].
+  rewrite IH. destruct ev; reflexivity.
+Qed.
+
+(* HISTORY INDEPENDENCE over the machine: whatever the context went through before (polls of any kind, bad
+   requests, client offers, answers, timeouts, counters at any value), the reply to an event is the function
+   [breply_of] of the event and of the patterns of the latest installation. *)
+Theorem brun_reply_at v c pre ev post c' rs :
+  brun v c (pre ++ ev :: post) = Some (c', rs) ->
+  nth_error rs (length pre) = Some (breply_of (bcfg_after (b_cfg c) pre) ev).
+Proof.
+  intros H. rewrite (brun_replies _ _ _ _ _ H), breplies_app.
+  rewrite nth_error_app2 by (rewrite breplies_length; apply Nat.le_refl).
+  rewrite breplies_length, Nat.sub_diag. reflexivity.
+Qed.
+
+(* two contexts that agree on the installed patterns answer every continuation alike *)
+Theorem brun_state_irrelevant v c1 c2 evs c1' c2' rs1 rs2 :
+  b_cfg c1 = b_cfg c2 ->
+  brun v c1 evs = Some (c1', rs1) -> brun v c2 evs = Some (c2', rs2) -> rs1 = rs2.
+Proof.
+  intros E H1 H2. rewrite (brun_replies _ _ _ _ _ H1), (brun_replies _ _ _ _ _ H2), E. reflexivity.
+Qed.
+
+(* a rejected poll and a malformed request leave the matching core exactly as it was *)
+Theorem bstep_rejected_changes_nothing v c body c' r :
+  bstep v c (B_Poll body) = Some (c', r) -> r <> PollReply Registered -> b_core c' = b_core c.
+Proof.
+  intros H N. destruct (bstep_poll _ _ _ _ _ H) as [Hr [_ Hd]]. unfold poll_verdict in Hr.
+  destruct (opt_decode decode_proxy_poll body) as [q|].
+  - destruct Hd as [_ [Hrej _]]. apply Hrej. rewrite <- poll_label_verdict in Hr.
+    destruct (broker_accepts_poll (b_cfg c) (poll_pattern q)); [|reflexivity]. exfalso. apply N. exact Hr.
+  - rewrite Hd. reflexivity.
+Qed.
+
+(* ---- entries of the matching core are created by admitted polls and by nothing else ---- *)
+
+Lemma map_upd_sid f : (forall e, e_sid (f e) = e_sid e) ->
+  forall l p, map e_sid (upd p f l) = map e_sid l.
+Proof.
+  intros Hf. induction l as [|x l IH]; intros [|p]; cbn [upd map]; try reflexivity.
+  - rewrite Hf. reflexivity.
+  - rewrite IH. reflexivity.
+Qed.
+
+Ltac sid_upd :=
+  apply map_upd_sid; intros ?;
+  repeat match goal with |- context [if ?b then _ else _] => destruct b end; reflexivity.
+
+Lemma step_sids v s l s' :
+  step v s l = Some s' -> (forall sd n pt cl, l <> L_Poll sd n pt cl) ->
+  map e_sid (entries s') = map e_sid (entries s).
+Proof.
+  intros H NP. destruct l; try (exfalso; eapply NP; reflexivity); cbv beta delta [step] iota zeta in H;
+  repeat match type of H with
+         | context [match ?x with _ => _ end] => destruct x eqn:?; try discriminate
+         end;
+  injection H as <-; cbn [entries with_entries]; try reflexivity; sid_upd.
+Qed.
+
+Lemma gstep_other_sids cfg v s l s' r :
+  gstep cfg v s (G_Other l) = Some (s', r) -> map e_sid (entries s') = map e_sid (entries s).
+Proof.
+  cbn [gstep]. destruct l;
+  try discriminate;
+  match goal with |- option_map _ (step v s ?L) = _ -> _ =>
+    destruct (step v s L) as [s1|] eqn:E; [|discriminate]; cbn [option_map]; intros H; injection H as <- _;
+    apply (step_sids _ _ _ _ E); intros; discriminate end.
+Qed.
+
+Lemma bstep_sids v c ev c' r :
+  bstep v c ev = Some (c', r) ->
+  map e_sid (entries (b_core c')) = map e_sid (entries (b_core c)) ++ admitted_sids (b_cfg c) [ev].
+Proof.
+  destruct ev as [body|cfg'|l]; intros H.
+  - destruct (bstep_poll _ _ _ _ _ H) as [_ [_ Hd]]. cbn [admitted_sids].
+    destruct (opt_decode decode_proxy_poll body) as [q|].
+    + destruct Hd as [_ [_ Hs]]. rewrite Hs. destruct (broker_accepts_poll (b_cfg c) (poll_pattern q)); reflexivity.
+    + rewrite Hd, app_nil_r. reflexivity.
+  - cbn in H. injection H as <- _. cbn. rewrite app_nil_r. reflexivity.
+  - cbn [bstep] in H. destruct (gstep (b_cfg c) v (b_core c) (G_Other l)) as [[core' o]|] eqn:E; [|discriminate].
+    injection H as <- _. cbn [b_core admitted_sids]. rewrite app_nil_r. exact (gstep_other_sids _ _ _ _ _ _ E).
+Qed.
+
+Lemma admitted_sids_cons cfg ev r :
+  admitted_sids cfg (ev :: r) = admitted_sids cfg [ev] ++ admitted_sids (bcfg_after cfg [ev]) r.
+Proof.
+  destruct ev as [body|c|l]; cbn [admitted_sids bcfg_after]; try reflexivity.
+  destruct (opt_decode decode_proxy_poll body) as [q|]; [|reflexivity].
+  destruct (broker_accepts_poll cfg (poll_pattern q)); reflexivity.
+Qed.
+
+Theorem brun_sids v : forall evs c c' rs, brun v c evs = Some (c', rs) ->
+  map e_sid (entries (b_core c')) = map e_sid (entries (b_core c)) ++ admitted_sids (b_cfg c) evs.
+Proof.
+  induction evs as [|ev r IH]; intros c c' rs H; cbn [brun] in H.
+  - injection H as <- _. cbn. rewrite app_nil_r. reflexivity.
+  - destruct (bstep v c ev) as [[c1 o]|] eqn:E; [|discriminate].
+    destruct (brun v c1 r) as [[c2 os]|] eqn:E2; [|discriminate]. injection H as <- _.
+    rewrite (admitted_sids_cons (b_cfg c) ev r), (IH _ _ _ E2), (bstep_sids _ _ _ _ _ E), (bstep_cfg _ _ _ _ _ E), app_assoc.
+    reflexivity.
+Qed.
+
+(* where an admitted sid comes from: a well-formed poll whose pattern (for a poll without the field: the presumed
+   pattern) was judged a superset of the allowed pattern under the installation then in force *)
+Lemma admitted_sids_sound : forall evs cfg sd, In sd (admitted_sids cfg evs) ->
+  exists pre body post q, evs = pre ++ B_Poll body :: post /\ opt_decode decode_proxy_poll body = Ok q
+    /\ sid_tag (pq_sid q) = sd /\ broker_accepts_poll (bcfg_after cfg pre) (poll_pattern q) = true.
+Proof.
+  induction evs as [|ev r IH]; intros cfg sd H; [destruct H|].
+  rewrite admitted_sids_cons in H. apply in_app_or in H. destruct H as [H|H].
+  - destruct ev as [body|c|l]; cbn [admitted_sids] in H; try (destruct H).
+    destruct (opt_decode decode_proxy_poll body) as [q|] eqn:D; [|destruct H].
+    destruct (broker_accepts_poll cfg (poll_pattern q)) eqn:A; [|destruct H].
+    destruct H as [H|[]]. exists [], body, r, q. repeat split; assumption.
+  - destruct (IH _ _ H) as [pre [body [post [q [-> [D [S A]]]]]]].
+    exists (ev :: pre), body, post, q. repeat split; try assumption.
+    change (ev :: pre) with ([ev] ++ pre). rewrite bcfg_after_app. exact A.
+Qed.
+
+(* "never gives such a proxy a client": in a broker context started with no proxies, after ANY history every
+   entry of the matching core (the only place a client offer can be put: Model/Broker.v, C02) belongs to a poll
+   that the gate admitted under the patterns in force when it arrived *)
+Theorem brun_entries_admitted v cfg br evs c' rs :
+  brun v (binit cfg br) evs = Some (c', rs) ->
+  forall e, In e (entries (b_core c')) ->
+  exists pre body post q, evs = pre ++ B_Poll body :: post /\ opt_decode decode_proxy_poll body = Ok q
+    /\ sid_tag (pq_sid q) = e_sid e /\ broker_accepts_poll (bcfg_after cfg pre) (poll_pattern q) = true.
+Proof.
+  intros H e He. apply (admitted_sids_sound evs cfg). pose proof (brun_sids _ _ _ _ _ H) as S. cbn in S.
+  rewrite <- S. apply in_map. exact He.
+Qed.
+
+(* the run of the machine projects onto the history-free reading (Model/RelayCheck.v broker_run): polls that
+   decode, by the content of their AcceptedRelayPattern field, and re-installations *)
+Lemma broker_run_app' : forall pre post cfg,
+  broker_run cfg (pre ++ post) = broker_run cfg pre ++ broker_run (broker_cfg_after cfg pre) post.
+Proof. induction pre as [|[pat|c] r IH]; intros post cfg; cbn; [reflexivity| |]; rewrite IH; reflexivity. Qed.
+
+Lemma breply_abs cfg ev :
+  flat_map abs_reply [breply_of cfg ev] = broker_run cfg (abs_event ev)
+  /\ broker_cfg_after cfg (abs_event ev) = bcfg_after cfg [ev].
+Proof.
+  destruct ev as [body|c|l]; cbn [breply_of abs_event flat_map app]; try (split; reflexivity).
+  unfold poll_verdict. destruct (opt_decode decode_proxy_poll body) as [q|]; [|split; reflexivity].
+  rewrite <- poll_label_verdict. cbn. destruct (broker_accepts_poll cfg (poll_pattern q)); split; reflexivity.
+Qed.
+
+Theorem brun_projects_to_broker_run v : forall evs c c' rs, brun v c evs = Some (c', rs) ->
+  flat_map abs_reply rs = broker_run (b_cfg c) (flat_map abs_event evs).
+Proof.
+  intros evs c c' rs H. rewrite (brun_replies _ _ _ _ _ H). clear H. generalize (b_cfg c). clear.
+  induction evs as [|ev r IH]; intros cfg; [reflexivity|].
+  cbn [breplies flat_map]. rewrite broker_run_app'. destruct (breply_abs cfg ev) as [E1 E2].
+  cbn [flat_map] in E1. rewrite app_nil_r in E1. rewrite E1, E2, IH. reflexivity.
+Qed.
+
+(* polls and re-installations are always enabled (ProxyPolls never blocks before its verdict) *)
+Lemma brun_polls_enabled v : forall evs c,
+  forallb (fun ev => match ev with B_Core _ => false | _ => true end) evs = true ->
+  exists c' rs, brun v c evs = Some (c', rs).
+Proof.
+  induction evs as [|ev r IH]; intros c H; [eexists; eexists; reflexivity|].
+  cbn [forallb] in H. apply andb_prop in H. destruct H as [H1 H2].
+  assert (exists c1 o, bstep v c ev = Some (c1, o)) as [c1 [o E]].
+  { destruct ev as [body|cfg'|l]; [| eexists; eexists; reflexivity | discriminate].
+    unfold bstep. destruct (opt_decode decode_proxy_poll body) as [q|]; [|eexists; eexists; reflexivity].
+    unfold poll_label.
+    destruct (gstep_poll_cases (b_cfg c) v (b_core c) (sid_tag (pq_sid q)) (natty_of (pq_nat q))
+                (sid_tag (pq_type q)) (Z.to_N (pq_clients q)) (poll_pattern q)) as [s' [E _]].
+    rewrite E. destruct (broker_accepts_poll (b_cfg c) (poll_pattern q)); eexists; eexists; reflexivity. }
+  destruct (IH c1 H2) as [c2 [os E2]]. cbn [brun]. rewrite E, E2. eexists; eexists; reflexivity.
 Qed.
